@@ -20,14 +20,37 @@ def parseStartTLS : String → Option StartTLS
   | "o" => some .offered | "s" => some .stripped | "h" => some .hsFail | "c" => some .cmdFail
   | _ => none
 
-def parseCert : String → Option Cert
-  | "v" => some .valid | "u" => some .untrusted | "w" => some .wrongName
+def parseCert1 : Char → Option Cert
+  | 'v' => some .valid | 'u' => some .untrusted | 'w' => some .wrongName
   | _ => none
 
+/-- `<v|u|w>[<chain shape 1..6>]`: the verdict on the end-entity certificate and the shape of the presented chain
+(0 = end-entity certificate + its issuer; 1-3: a further end-entity certificate G — the genuine MX's — as
+[leaf,G] / [leaf,issuer,G] / [leaf,G,issuer]; 4-6 the same with a foreign CA certificate F).  The shape has no
+influence on the model beyond which record kinds can be expressed (see `kindOK`). -/
+def parseCert (s : String) : Option (Cert × Nat) :=
+  match s.toList with
+  | [c] => (parseCert1 c).map (fun c => (c, 0))
+  | [c, d] => do
+    let c ← parseCert1 c
+    let d ← digit? d
+    if 1 ≤ d ∧ d ≤ 6 then pure (c, d) else none
+  | _ => none
+
+/-- `p`: DANE-EE record of the extra certificate; `i`: DANE-EE record of the presented issuer certificate;
+`a`: DANE-TA record of the extra certificate -/
 def parseTlsa : String → Option Tlsa
   | "n" => some .none | "e" => some .eeMatch | "t" => some .taMatch | "m" => some .mismatch
   | "u" => some .unusable | "f" => some .servfail
+  | "p" => some .eeOther | "i" => some .eeOther | "a" => some .taOther
   | _ => none
+
+/-- a record kind needs the certificate it refers to in the presented chain: `p`/`a` an extra certificate
+(shape ≠ 0), `t`/`i` the issuer (shapes 1 and 4 omit it) -/
+def kindOK (kind : String) (shape : Nat) : Bool :=
+  if kind == "p" || kind == "a" then shape != 0
+  else if kind == "t" || kind == "i" then shape != 1 && shape != 4
+  else true
 
 def parseSTS : Char → Option STS
   | 'a' => some .absent | 'n' => some .none | 't' => some .testing | 'e' => some .enforce
@@ -47,24 +70,26 @@ def parseAlias (s : String) : Option (Alias × Tlsa × Bool × Bool) :=
 /-- `<srv>.<up>.<starttls>.<cert>.<stsMatch>.<aAD>.<tlsaAD>.<tlsa>.<reqtls>.<slow>[.<alias>]`; the `slow` field
 (latency of the TLSA answers) has no influence on the model.  Without the alias field the MX name is not a CNAME. -/
 def parseMX (s : String) : Option MX :=
-  let core (srv up st ce sm aad tad tl rt slow : String) (al : Alias × Tlsa × Bool × Bool) : Option MX := do
+  let core (srv up st ce sm aad tad tl rt slow : String) (al : Alias × Tlsa × Bool × Bool) (alKind : String) :
+      Option MX := do
     let srv ← srv.toNat?
     let up ← bitS? up
     let st ← parseStartTLS st
-    let ce ← parseCert ce
+    let (ce, shape) ← parseCert ce
     let sm ← bitS? sm
     let aad ← bitS? aad
     let tad ← bitS? tad
-    let tl ← parseTlsa tl
+    let tlv ← parseTlsa tl
     let rt ← bitS? rt
     let _ ← bitS? slow
-    pure ⟨srv, up, st, ce, sm, aad, tad, tl, rt, al.1, al.2.1, al.2.2.1, al.2.2.2⟩
+    if !(kindOK tl shape && kindOK alKind shape) then none else
+    pure ⟨srv, up, st, ce, sm, aad, tad, tlv, rt, al.1, al.2.1, al.2.2.1, al.2.2.2⟩
   match s.splitOn "." with
   | [srv, up, st, ce, sm, aad, tad, tl, rt, slow] =>
-    core srv up st ce sm aad tad tl rt slow (.none, .none, false, false)
+    core srv up st ce sm aad tad tl rt slow (.none, .none, false, false) "n"
   | [srv, up, st, ce, sm, aad, tad, tl, rt, slow, al] => do
-    let al ← parseAlias al
-    core srv up st ce sm aad tad tl rt slow al
+    let alv ← parseAlias al
+    core srv up st ce sm aad tad tl rt slow alv (String.singleton (al.toList.getD 1 'n'))
   | _ => none
 
 def parseDom (s : String) : Option Domain :=
@@ -141,6 +166,35 @@ def showOut (o : MsgOut) : String :=
   let d := if ds.isEmpty then "-" else ",".intercalate ds
   s!"r:{rs} d:{d}"
 
+/-- `<gate s|t|m><kind c|d><k><victim>`: which lookup is held back while the `k` deliveries start (MTA-STS
+fetch / TLSA answers / MX answer of domain 0; `k` is 1-3), how the victim's context ends (cancel / deadline), the index of the
+victim (`9`: nobody is cancelled). -/
+def parseScript (s : String) : Option (Char × Nat × Nat) :=
+  match s.toList with
+  | [g, kd, k, v] => do
+    let k ← digit? k
+    let v ← digit? v
+    if !(g == 's' || g == 't' || g == 'm') || !(kd == 'c' || kd == 'd') then none
+    else if k < 1 || k > 3 || !(v < k || v == 9) then none
+    else pure (g, k, v)
+  | _ => none
+
+/-- well-formed batch: at least `k` messages; every overlapping delivery starts with a recipient in domain 0 and is
+not refused before it looks anything up; the victim is held at the gate for certain (gate `s`: MTA-STS applies
+to it); later messages only where the victim's effect on the pool is determined (not with the TLSA gate) -/
+def concOK (cfg : Cfg) (g : Char) (k v : Nat) (ms : List Msg) : Bool :=
+  decide (k ≤ ms.length) &&
+  (ms.take k).all (fun m => m.rcpts.head? == some 0 && m.quarantine != 1) &&
+  (match ms[v]? with
+   | some m => (g != 's' || (startPolicies cfg m).contains Policy.mtasts) &&
+               (g != 't' || ms.length == k) && v < k
+   | none => v == 9)
+
+def showConc (o : Option MsgOut) : String :=
+  match o with
+  | some o => showOut o
+  | none => "x"
+
 def handle : List String → String
   | ["hist", cfg, d0, d1, msgs] =>
     match parseCfg cfg, parseDom d0, parseDom d1, (msgs.splitOn "/").mapM parseMsg with
@@ -148,6 +202,14 @@ def handle : List String → String
       let doms : Nat → Domain := fun i => if i == 0 then d0 else d1
       " | ".intercalate ((run cfg doms ms emptyPool).map showOut)
     | _, _, _, _ => "bad-op"
+  | ["conc", cfg, d0, d1, script, msgs] =>
+    match parseCfg cfg, parseDom d0, parseDom d1, parseScript script, (msgs.splitOn "/").mapM parseMsg with
+    | some cfg, some d0, some d1, some (g, k, v), some ms =>
+      if !concOK cfg g k v ms then "bad-op" else
+      let doms : Nat → Domain := fun i => if i == 0 then d0 else d1
+      let b := runConc cfg doms k v (ms.take k) 0 emptyPool
+      " | ".intercalate (b.1.map showConc ++ (run cfg doms (ms.drop k) b.2).map showOut)
+    | _, _, _, _, _ => "bad-op"
   | _ => "bad-op"
 
 end Driver.C05
